@@ -69,6 +69,12 @@ Definition mig_model (c : World.world * (str + (str * cfgdata)) * store * list b
                 dict(classes=[K(0, 'A', params=[P('x')]), K(1, 'B', group='g', meta_inputs=[{'cls': 0}])],
                      files={'cfg/main.json': {'tasks': ['@M.*'], 'x': 1}}, base={'file': 'cfg/main.json'}, context=None,
                      compute=[0, 1], drys=[True, True, False], verbose=False),
+                # two config files with the same tasks and values under two namespaces: one task object, two names, in
+                # parameter mode
+                dict(classes=[K(0, 'A', params=[P('x')]), K(1, 'B', group='g', meta_inputs=[{'cls': 0}])],
+                     files={'a.json': {'tasks': ['@M.*'], 'x': 1}, 'b.json': {'tasks': ['@M.*'], 'x': 1},
+                            'main.json': {'uses': ['a.json as p', 'b.json as q']}},
+                     base={'file': 'main.json'}, context=None, compute=[0, 1, 2, 3], drys=[True, False, False], verbose=False),
                 # the chain of a part of a multi-config file that is not the main part
                 dict(classes=[K(0, 'A', params=[P('x')]), K(1, 'B', group='g', meta_inputs=[{'cls': 0}])],
                      files={'multi.json': {'configs': {'p0': {'tasks': ['@M.*'], 'x': 1, 'main_part': True},
@@ -110,6 +116,14 @@ Definition mig_model (c : World.world * (str + (str * cfgdata)) * store * list b
                         old_values[n] = describe_value(old.tasks[n].value)
                     except Exception:
                         pass
+            try:    # can the parameter-mode chain of this configuration be built at all (on a scratch directory)?
+                Config(Path('scratch_pm'), case['base']['file'], global_vars=pl.gv_arg(case),
+                       context=pl.ctx_arg(case.get('context'), mod)).chain()
+                param_ok = True
+            except Exception:
+                param_ok = False
+            import shutil
+            shutil.rmtree('scratch_pm', ignore_errors=True)
             src0 = tree('data')
             steps = []
             for dry in case['drys']:
@@ -137,7 +151,7 @@ Definition mig_model (c : World.world * (str + (str * cfgdata)) * store * list b
                                  old_fullname={n: t.fullname for n, t in old.tasks.items()})
                 except CONSTRUCTION_ERRORS as e:
                     after = dict(error=type(e).__name__)
-            return dict(src0=src0, steps=steps, old_values=old_values, after=after)
+            return dict(src0=src0, steps=steps, old_values=old_values, after=after, param_ok=param_ok)
 
     def encode(self, case, obs):
         i = cpair(pl.cworld(case, 'M'), pl.cbase(case['base'], 'M'), cstore(obs.get('src0', [])),
@@ -152,6 +166,9 @@ Definition mig_model (c : World.world * (str + (str * cfgdata)) * store * list b
     def oracle(self, case, obs):
         if 'unexpected_exception' in obs:
             return f'unexpected exception {obs["unexpected_exception"]}: {obs["text"]}'
+        if 'steps' in obs and obs.get('param_ok') and any(s.get('error') == 'KeyError' for s in obs['steps']):
+            return ('migration fails with KeyError although the name-mode chain and the parameter-mode chain of the configuration '
+                    'can both be built: a task of one chain is not found in the other')
         if 'steps' not in obs or any('error' in s for s in obs['steps']):
             return None
         src0 = {p: h for p, h in obs['src0']}
